@@ -6,7 +6,7 @@ export GOFLAGS=-mod=mod GOPROXY=off GOSUMDB=off GOTOOLCHAIN=local
 VERIF=/verif
 REPO=${VERIF_REPO:-/repo}
 mkdir -p $VERIF/.build
-H=$( (cd $REPO && find . -path ./.git -prune -o -type f \( -name '*.go' -o -name go.mod -o -name go.sum \) -print0 | sort -z | xargs -0 sha256sum; cd $VERIF && find sim verifrt instrument -type f \( -name '*.go' -o -name go.mod \) -print0 2>/dev/null | sort -z | xargs -0 sha256sum) | sha256sum | cut -c1-20)
+H=$( (cd $REPO && find . -path ./.git -prune -o -type f \( -name '*.go' -o -name go.mod -o -name go.sum \) -print0 | sort -z | xargs -0 sha256sum; cd $VERIF && find sim verifrt instrument -type f \( -name '*.go' -o -name go.mod \) -print0 2>/dev/null | sort -z | xargs -0 sha256sum; echo "noinstr=${VERIF_NOINSTRUMENT:-0}") | sha256sum | cut -c1-20)
 OUT=$VERIF/.build/$H
 if [ -x $OUT/saosim ]; then echo $OUT/saosim; exit 0; fi
 SCR=$(mktemp -d ${TMPDIR:-/var/tmp}/saosim-build-XXXXXX)
